@@ -57,8 +57,10 @@ class FakePool:
 # abstract BAM description
 
 def mk_rec(name, contig, site, rstart, rlen, sample='s1', r1=True, dup=False, qcfail=False, mapq=60, mp='', key='k1',
-           proper=True, file=1, clip=0, paired=True, unmapped=False):
-    return {'file': file, 'clip': clip, 'paired': paired, 'unmapped': unmapped, 'name': name, 'contig': contig, 'site': int(site), 'rstart': int(rstart), 'rend': int(rstart + rlen),
+           proper=True, file=1, clip=0, paired=True, unmapped=False, extra='', ):
+    # sample '': no SM tag; extra '' / 'supplementary' / 'secondary': a further read-1 record with the query name of another
+    return {'file': file, 'clip': clip, 'paired': paired, 'unmapped': unmapped, 'extra': bool(extra), 'extra_kind': extra,
+            'name': name, 'contig': contig, 'site': int(site), 'rstart': int(rstart), 'rend': int(rstart + rlen),
             'sample': sample, 'r1': r1, 'dup': dup, 'qcfail': qcfail, 'mapq': mapq, 'mp': mp, 'key': key, 'proper': proper}
 
 
@@ -73,9 +75,24 @@ def gen_bam(rng, in_pre=True):
     # "shared": the same cell occurs in two libraries (outside the statement, recorded as an observation)
     nfiles = rng.choice([1, 1, 1, 2, 2, 3])
     shared = nfiles > 1 and rng.random() < 0.15
+    # BAM lists with differing headers: the 2nd library lacks the last contig and / or has a contig of its own
+    with_extras = rng.random() < 0.35      # BAMs holding further read-1 records of a query name
+    allowed = {fi: list(range(len(contigs))) for fi in range(1, nfiles + 1)}
+    hetero = False
+    if nfiles > 1 and rng.random() < 0.4:
+        hetero = True
+        how = rng.choice(['missing', 'extra', 'both']) if len(contigs) > 1 else 'extra'
+        if how in ('missing', 'both'):
+            allowed[2] = allowed[2][:-1]
+        if how in ('extra', 'both'):
+            contigs.append('chr2')
+            lens.append(rng.choice([30, 64]))
+            allowed[2] = allowed[2] + [len(contigs) - 1]
+            if nfiles > 2 and rng.random() < 0.5:
+                allowed[3] = allowed[3] + [len(contigs) - 1]
     for t in range(rng.choice([0, 1] + [rng.randint(4, 22)] * 18)):      # now and then an empty / one-record BAM
-        ci = rng.randrange(len(contigs))
         fi = rng.randint(1, nfiles)
+        ci = rng.choice(allowed[fi])
         ln = lens[ci]
         rlen = min(rng.choice([1, 4, 8, 15]), ln)
         w = binsz * rng.choice([1, 1, 2, 3, 4, 7])                   # a possible job width
@@ -101,6 +118,8 @@ def gen_bam(rng, in_pre=True):
         cell = rng.choice(['cellA', 'cellAB', 'cellB'])
         if nfiles > 1 and not (shared and cell == 'cellA'):
             cell = 'lib%d_%s' % (fi, cell)
+        if fi == 1 and rng.random() < 0.08:
+            cell = ''                                                 # no SM tag: belongs to no cell
         r = mk_rec('m%d' % t, contigs[ci], site, rstart, rlen, sample=cell, file=fi,
                    dup=kind == 'dup', qcfail=kind == 'qcfail', mapq=mapq,
                    mp={'mp_multi': 'multi', 'mp_unique': 'unique'}.get(kind, ''), key=rng.choice(['ref', 'alt', 'alt', 'None']),
@@ -111,14 +130,21 @@ def gen_bam(rng, in_pre=True):
             r2['rstart'] = max(0, min(ln - rlen, site + 1))
             r2['rend'] = r2['rstart'] + rlen
             recs.append(r2)
+        if with_extras and kind == 'good' and rng.random() < 0.25:      # supplementary / secondary read-1 record with the same query name
+            w2 = binsz * rng.choice([1, 2, 3])
+            s2 = rng.choice([site, min(ln - 1, site + 1), max(0, min(ln - 1, w2 * rng.randint(0, ln // w2))), rng.randrange(ln)])
+            r3 = dict(r, site=s2, extra=True, extra_kind=rng.choice(['supplementary', 'secondary']), clip=0)
+            r3['rstart'] = max(0, min(ln - rlen, s2))
+            r3['rend'] = r3['rstart'] + rlen
+            recs.append(r3)
         if rng.random() < 0.08:       # no DS tag: the site is the start of the (forward) alignment
             r.update(nods=True, site=r['rstart'])
         recs.append(r)
         if rng.random() < 0.6:                                        # the mate: never counted
             m = dict(r, r1=False, site=rng.randrange(ln))
             mln = ln
-            if len(contigs) > 1 and rng.random() < 0.15:              # mate aligned to another contig
-                mi = rng.choice([k for k in range(len(contigs)) if k != ci])
+            if len(allowed[fi]) > 1 and rng.random() < 0.15:          # mate aligned to another contig
+                mi = rng.choice([k for k in allowed[fi] if k != ci])
                 m['contig'], mln = contigs[mi], lens[mi]
                 m['site'] = rng.randrange(mln)
                 if rng.random() < 0.8:                                # aligners never flag such a pair as proper
@@ -129,12 +155,12 @@ def gen_bam(rng, in_pre=True):
             recs.append(m)
     # records that pass every other filter but are not read-1 records, or not mapped: never to be counted
     for t in range(rng.choice([0, 1, 2, 3])):
-        ci = rng.randrange(len(contigs))
+        fi = rng.randint(1, nfiles)
+        ci = rng.choice(allowed[fi])
         ln = lens[ci]
         rlen = min(rng.choice([1, 4, 8]), ln)
         site = rng.choice([0, ln - 1, binsz * rng.randint(0, (ln - 1) // binsz), rng.randrange(ln)])
         rstart = max(0, min(ln - rlen, site))
-        fi = rng.randint(1, nfiles)
         cell = 'cellB' if nfiles == 1 else 'lib%d_cellB' % fi
         kind = rng.choice(['unpaired', 'unpaired', 'read2_only', 'unmapped_read2'] + (['unmapped_read1'] if minmq > 0 else []))
         r = mk_rec('x%d' % t, contigs[ci], site, rstart, rlen, sample=cell, r1=False, mapq=60, key='ref', file=fi, proper=False)
@@ -143,7 +169,10 @@ def gen_bam(rng, in_pre=True):
         elif kind.startswith('unmapped'):      # placed at its mate's position, no CIGAR, MAPQ 0
             r.update(unmapped=True, rend=r['rstart'] + 1, mapq=0, r1=kind == 'unmapped_read1', clip=0)
         recs.append(r)
-    return {'contigs': contigs, 'lens': lens, 'nfiles': nfiles, 'recs': recs}, binsz, mfs, minmq
+    bam = {'contigs': contigs, 'lens': lens, 'nfiles': nfiles, 'hetero': hetero, 'recs': recs}
+    if hetero:
+        bam['file_contigs'] = {str(fi): [contigs[k] for k in allowed[fi]] for fi in allowed}
+    return bam, binsz, mfs, minmq
 
 
 def write_bams(tmp, bam):
@@ -157,15 +186,20 @@ def write_bams(tmp, bam):
 
 
 def write_bam(path, bam, fi=1):
-    header = bamgen.make_header(list(zip(bam['contigs'], bam['lens'])))
+    # file_contigs (optional): the contigs in the header of each BAM of the list (differing headers)
+    keep = bam.get('file_contigs', {}).get(str(fi))
+    header = bamgen.make_header([(c, l) for c, l in zip(bam['contigs'], bam['lens']) if keep is None or c in keep])
     segs = []
     names = {}
     mine = [r for r in bam['recs'] if r.get('file', 1) == fi]
     for r in mine:
         names.setdefault(r['name'], []).append(r)
     for r in mine:
-        mates = [x for x in names[r['name']] if x is not r]
-        tags = {'SM': r['sample']}
+        mates = ([x for x in names[r['name']] if x is not r and x['r1'] != r['r1']]
+                 or [x for x in names[r['name']] if x is not r])
+        tags = {}
+        if r['sample']:
+            tags['SM'] = r['sample']
         if not r.get('nods'):
             tags['DS'] = r['site']
         if r['key'] != 'None':        # key 'None': the record has no allele tag (the bin id then carries None)
@@ -176,7 +210,8 @@ def write_bam(path, bam, fi=1):
         segs.append(bamgen.make_read(
             header, r['name'], r['contig'], r['rstart'], 'A' * (r['rend'] - r['rstart'] + r.get('clip', 0)),
             cigar=('%dS%dM' % (r['clip'], r['rend'] - r['rstart'])) if r.get('clip') else None, paired=r.get('paired', True),
-            unmapped=r.get('unmapped', False), read1=r['r1'] and r.get('paired', True),
+            unmapped=r.get('unmapped', False), supplementary=r.get('extra_kind') == 'supplementary',
+            secondary=r.get('extra_kind') == 'secondary', read1=r['r1'] and r.get('paired', True),
             read2=not r['r1'] and r.get('paired', True), proper=r['proper'], mate_contig=(m or r)['contig'], mate_pos=(m or r)['rstart'],
             mate_unmapped=False, mapq=r['mapq'], dup=r['dup'], qcfail=r['qcfail'], tags=tags))
     bamgen.write_bam(path, header, segs)
@@ -186,7 +221,7 @@ def write_bam(path, bam, fi=1):
 # running the real code
 
 def run_counts(bbc, path, cfg, pool, threads, order_seed):
-    kwargs = {} if cfg['kwargs'] == 'empty' else None
+    kwargs = {'empty': {}, 'ignore_mp': {'ignore_mp': True}}.get(cfg['kwargs'])
     extra = {} if kwargs is None else {'kwargs': kwargs}        # "none": the documented default of generate_commands
     raised, rows = '', []
     FakePool.order_rng = random.Random(order_seed)
@@ -291,7 +326,9 @@ def main():
             for k, group in by_recs.items():
                 recs, contigs, lens = json.loads(k)
                 bam = {'contigs': contigs, 'lens': lens, 'nfiles': max([r.get('file', 1) for r in recs] + [1]),
-                       'recs': [dict(r, name='t%d' % i, proper=r.get('paired', True), file=r.get('file', 1), unmapped=False, clip=0)
+                       'hetero': False,
+                       'recs': [dict(r, name='t%d' % i, proper=r.get('paired', True), file=r.get('file', 1), unmapped=False, clip=0,
+                                     extra=False)
                                 for i, r in enumerate(recs)]}
                 path = state['path'] = write_bams(tmp, bam)
                 emit(dict(bam, ev='bam', source='tlc_scenario'))
@@ -317,12 +354,28 @@ def main():
                     if nfiles == 2:                               # another library: other cells in the same bins
                         recs.append(mk_rec('d%dx' % k, 'chr1', site, site, 3, sample='lib2_cellA', mapq=60, key='ref', file=2))
                         recs.append(mk_rec('d%dy' % k, 'chr1', site + 2, site + 2, 3, sample='lib2_cellA', mapq=60, key='ref', file=2))
-                bam = {'contigs': ['chr1', 'chr11'], 'lens': [ln, 20], 'nfiles': nfiles, 'recs': recs}
+                    if k % 3 == 0:      # a supplementary read-1 record of molecule a in the same bin (always the same job) ...
+                        recs.append(mk_rec('d%da' % k, 'chr1', site + 2, site + 2, 3, sample='cellA', mapq=60, key='ref',
+                                           extra='supplementary'))
+                    if k % 3 == 1:      # ... and a secondary one 6 bins away (another job for small bins-per-job)
+                        recs.append(mk_rec('d%da' % k, 'chr1', (site + 30) % 55, (site + 30) % 55, 3, sample='cellA', mapq=60,
+                                           key='ref', extra='secondary'))
+                    if k % 4 == 2:      # a record without SM tag right after records of cellA, a QC-failed and an mp-bad one
+                        recs.append(mk_rec('d%dn' % k, 'chr1', site + 3, site + 3, 2, sample='', mapq=60, key='ref'))
+                        recs.append(mk_rec('d%dq' % k, 'chr1', site + 3, site + 3, 2, sample='cellB', mapq=60, key='ref', qcfail=True))
+                        recs.append(mk_rec('d%dm' % k, 'chr1', site + 4, site + 4, 1, sample='cellB', mapq=60, key='ref', mp='multi'))
+                bam = {'contigs': ['chr1', 'chr11'], 'lens': [ln, 20], 'nfiles': nfiles, 'hetero': False, 'recs': recs}
+                recs.append(mk_rec('d_c11', 'chr11', 7, 7, 3, sample='cellA', mapq=60, key='ref'))
+                if nfiles == 2:         # differing headers: the 2nd library has no chr11 but a contig of its own
+                    bam.update(contigs=['chr1', 'chr11', 'chr2'], lens=[ln, 20, 30], hetero=True,
+                               file_contigs={'1': ['chr1', 'chr11'], '2': ['chr1', 'chr2']})
+                    recs.append(mk_rec('d_c2', 'chr2', 12, 12, 3, sample='lib2_cellA', mapq=60, key='ref', file=2))
                 path = state['path'] = write_bams(tmp, bam)
                 emit(dict(bam, ev='bam', source='directed_job_boundaries', seed=seed, bam_index=-nfiles))
                 for mfs in (2, 0):
                     state['group'] += 1
-                    base = {'bin': binsz, 'mfs': mfs, 'minmq': 0, 'dedup': True, 'kwargs': 'empty', 'usekey': False, 'skip': []}
+                    base = {'bin': binsz, 'mfs': mfs, 'minmq': 0, 'dedup': True, 'usekey': False, 'skip': [],
+                            'kwargs': 'empty' if mfs else 'ignore_mp'}
                     for bpj in (1, 2, 3, 4, 12):
                         for order in (-1, -2):
                             run(dict(base, bpj=bpj), 'fake', 1, order)
@@ -341,6 +394,8 @@ def main():
                         'usekey': usekey, 'skip': []}
                 if len(bam['contigs']) > 1 and rng.random() < 0.25:
                     base['skip'] = rng.sample(bam['contigs'], rng.choice([1, 1, 2]))[:len(bam['contigs']) - 1]
+                if rng.random() < 0.25:
+                    base['kwargs'] = 'ignore_mp'      # kwargs={'ignore_mp': True}: mappability not consulted, QC failures still are
                 if minmq == 0 and rng.random() < 0.5:
                     base['mq_none'] = True          # min_mq=None: no threshold (same meaning as 0)
                 for i, bpj in enumerate(bpjs):
